@@ -45,6 +45,28 @@ fn bounds(recs: &[(u64, U)], now: u64, interval: u64) -> Option<(U, U, bool)> {
     Some((lo, hi, longer))
 }
 
+/// Bounds for the feed: the prices in effect for a positive stretch of the window [now - interval, now]. A round in
+/// effect for zero seconds of it (stamped at `now`, or superseded in the second it was stamped) has no part in a
+/// time-weighted average; if no round has a positive stretch the plain overlap is used.
+pub fn feed_bounds(recs: &[(u64, U)], now: u64, interval: u64) -> Option<(U, U, bool)> {
+    let (_, _, longer) = bounds(recs, now, interval)?;
+    let base = now.saturating_sub(interval);
+    let mut lo = U::MAX;
+    let mut hi = 0;
+    for (j, (t, p)) in recs.iter().enumerate() {
+        let end = recs.get(j + 1).map(|x| x.0).unwrap_or(u64::MAX).min(now);
+        let start = (*t).max(base);
+        if start < end {
+            lo = lo.min(*p);
+            hi = hi.max(*p);
+        }
+    }
+    if lo == U::MAX {
+        return bounds(recs, now, interval);
+    }
+    Some((lo, hi, longer))
+}
+
 fn vamm_records(ctx: &Ctx, v: usize) -> Vec<PriceRec> {
     let mut recs = ctx.model.prices[v].clone();
     let (a, b) = (&ctx.pre.vamms[v], &ctx.post.vamms[v]);
@@ -210,7 +232,7 @@ pub fn step(ctx: &Ctx, w: &World, ev: &mut Ev) {
                         continue;
                     }
                 };
-                if let Some((lo, hi, longer)) = bounds(&series, now, i) {
+                if let Some((lo, hi, longer)) = feed_bounds(&series, now, i) {
                     let rel = if longer { "longer" } else { "shorter" };
                     ev.eval(distinct >= 2, &("feed", rel, window_class(i), lo == hi), || json!({"source": "feed", "interval": i, "twap": tw.to_string(), "min": lo.to_string(), "max": hi.to_string(), "submissions": count}));
                     if tw < lo || tw > hi {
